@@ -70,6 +70,12 @@ pub enum Mut {
     PrependBom,
     /// a blank and a word are inserted in front of / in the middle of the content (arg selects where)
     InsertText(usize),
+    /// bytes that are not UTF-8 follow the (complete) content: arg 0 directly, 1 on a new line followed by more text lines,
+    /// 2 on a new line at the very end (a damaged or concatenated artefact: everything a line-by-line reader sees before
+    /// its first read error is right)
+    NonUtf8Tail(usize),
+    /// bytes that are not UTF-8 are inserted at a char boundary inside the content (arg selects where)
+    NonUtf8Inside(usize),
 }
 
 #[derive(Clone, Debug, PartialEq)]
@@ -115,6 +121,8 @@ impl Step {
                 Mut::FlipAlnum(k) => json!({"op": "Mutate", "kind": "FlipAlnum", "arg": k}),
                 Mut::Truncate(k) => json!({"op": "Mutate", "kind": "Truncate", "arg": k}),
                 Mut::InsertText(k) => json!({"op": "Mutate", "kind": "InsertText", "arg": k}),
+                Mut::NonUtf8Tail(k) => json!({"op": "Mutate", "kind": "NonUtf8Tail", "arg": k}),
+                Mut::NonUtf8Inside(k) => json!({"op": "Mutate", "kind": "NonUtf8Inside", "arg": k}),
                 Mut::ReplaceBy(s) => json!({"op": "Mutate", "kind": "ReplaceBy", "source": s}),
                 other => json!({"op": "Mutate", "kind": format!("{:?}", other)}),
             },
@@ -143,6 +151,8 @@ impl Step {
                 "Directory" => Mut::Directory,
                 "PrependBom" => Mut::PrependBom,
                 "InsertText" => Mut::InsertText(v.get("arg")?.as_u64()? as usize),
+                "NonUtf8Tail" => Mut::NonUtf8Tail(v.get("arg")?.as_u64()? as usize),
+                "NonUtf8Inside" => Mut::NonUtf8Inside(v.get("arg")?.as_u64()? as usize),
                 _ => return None,
             }),
             "BreakInput" => Step::BreakInput(v.get("kind")?.as_str()?.to_string()),
@@ -531,6 +541,18 @@ fn exec_in(world: &World, sc: &Scenario, dir: &Path, stats: &mut Stats) -> Optio
                     (Mut::Directory, _) => unreachable!(),
                     (Mut::NonUtf8, Some(c)) => { let mut o = vec![0xffu8, 0xfe, b'\n']; o.extend_from_slice(&c); Some(o) }
                     (Mut::PrependBom, Some(c)) => { let mut o = vec![0xefu8, 0xbb, 0xbf]; o.extend_from_slice(&c); Some(o) }
+                    (Mut::NonUtf8Tail(k), Some(mut c)) => {
+                        let tail: &[u8] = match k % 3 { 0 => b"\xff\xfe", 1 => b"\n\xff\xfe\x00garbage that is not rust\nfn stale() {}\n", _ => b"\n\xc3\x28\n" };
+                        c.extend_from_slice(tail);
+                        Some(c)
+                    }
+                    (Mut::NonUtf8Inside(k), Some(mut c)) => {
+                        let mut at = if c.is_empty() { 0 } else { k % c.len() };
+                        while at < c.len() && (c[at] & 0xC0) == 0x80 { at += 1; }
+                        let ins: &[u8] = b"\xff\xfe";
+                        c.splice(at..at, ins.iter().cloned());
+                        Some(c)
+                    }
                     (Mut::InsertText(k), Some(mut c)) => {
                         // at a char boundary: in front (k == 0) or somewhere inside
                         let mut at = if *k == 0 || c.is_empty() { 0 } else { k % c.len() };
@@ -579,6 +601,7 @@ fn exec_in(world: &World, sc: &Scenario, dir: &Path, stats: &mut Stats) -> Optio
                     Mut::Delete => "env_mutation_delete", Mut::Empty => "env_mutation_empty", Mut::AppendGarbage => "env_mutation_append_garbage", Mut::ReplaceBy(_) => "env_mutation_replace_by_other_enum",
                     Mut::NonUtf8 => "env_mutation_non_utf8_content", Mut::Directory => "env_mutation_directory_in_place_of_file",
                     Mut::PrependBom => "env_mutation_prepend_bom", Mut::InsertText(_) => "env_mutation_insert_text",
+                    Mut::NonUtf8Tail(_) => "env_mutation_non_utf8_tail_after_complete_content", Mut::NonUtf8Inside(_) => "env_mutation_non_utf8_inside_content",
                 });
                 dirty = true;
             }
@@ -774,7 +797,7 @@ fn gen_scenario(rng: &mut Rng, defs: &[Definition], index: u64, faults: bool) ->
             4 => Step::Mutate(Mut::FlipAlnum(rng.below(100_000))),
             5 => Step::Mutate(Mut::Truncate(rng.below(approx_len))),
             6 => Step::Write { fmt: false, plan: Plan { hash_seed: to_hex(&rng.bytes16()), rules: vec![format!("write:out.rs:{}:{}", rng.below(2), if rng.chance(1, 2) { "ENOSPC" } else { "EIO" }), format!("write:out.rs:*:SHORT:{}", rng.range(100, 3000))], rustfmt: "pass".into() } },
-            7 => Step::Mutate(match rng.below(3) { 0 => Mut::AppendGarbage, 1 => Mut::PrependBom, _ => Mut::InsertText(rng.below(3) * rng.below(50_000)) }),
+            7 => Step::Mutate(match rng.below(5) { 0 => Mut::AppendGarbage, 1 => Mut::PrependBom, 2 => Mut::NonUtf8Tail(rng.below(3)), 3 => Mut::NonUtf8Inside(rng.below(100_000)), _ => Mut::InsertText(rng.below(3) * rng.below(50_000)) }),
             8 => Step::Mutate(Mut::ToLf),
             _ => Step::Edit { source: decorate(&defs[rng.below(defs.len())].source, rng) },
         });
@@ -800,7 +823,7 @@ fn gen_scenario(rng: &mut Rng, defs: &[Definition], index: u64, faults: bool) ->
             }
             _ if rng.chance(1, 14) => Step::BreakInput(rng.pick(&["NonUtf8", "Missing", "NotRust", "Empty"]).to_string()),
             _ => Step::Mutate(match rng.below(17) {
-                12 => Mut::NonUtf8,
+                12 => match rng.below(4) { 0 => Mut::NonUtf8, 1 => Mut::NonUtf8Inside(rng.below(100_000)), _ => Mut::NonUtf8Tail(rng.below(3)) },
                 13 => Mut::Directory,
                 14 => Mut::PrependBom,
                 15 | 16 => Mut::InsertText(if rng.chance(1, 3) { 0 } else { rng.below(100_000) }),
